@@ -244,6 +244,15 @@ def run_history(case, ctx):
         if len(names) != ref.powers_.shape[0] or E is None or not numpy.array_equal(E, ref.powers_):
             ctx.violation("C11/history/names", "feature names after step %d do not name the monomials" % step,
                           cfg=cfg, names=names[:6])
+        # results of single-row calls are kept by the caller while further rows are asked
+        if len(X2) >= 2:
+            ra = m.transform(X2[:1])
+            ka = numpy.array(ra, copy=True)
+            rb = m.transform(X2[1:2])
+            ctx.hit("history.earlier_result_kept")
+            if not numpy.array_equal(ra, ka) or numpy.shares_memory(numpy.asarray(ra), numpy.asarray(rb)):
+                ctx.violation("C11/history/earlier-result-overwritten", "the result of transform on one row changed "
+                              "when the next row was transformed", cfg=cfg)
         # the same array object refilled in place between two calls
         buf = X2.astype(float)
         m.transform(buf)
@@ -260,6 +269,7 @@ def run_history(case, ctx):
             Xw = rng.randn(4, nw) * 2
             Xbad = Xw.copy()
             Xbad[0, 0] = numpy.nan
+            pbefore = repr(sorted(m.get_params().items()))
             try:
                 m.fit(Xbad)
                 refused = False
@@ -267,6 +277,10 @@ def run_history(case, ctx):
                 refused = True
             if refused:
                 ctx.hit("history.refused_fit")
+                if repr(sorted(m.get_params().items())) != pbefore:
+                    ctx.violation("C11/history/params-changed-by-refused-fit", "a fit refused by validation changed the "
+                                  "hyper-parameters: %s -> %s" % (pbefore[:120], repr(sorted(m.get_params().items()))[:120]),
+                                  cfg=cfg)
                 for Z in (X.astype(float), Xw):
                     try:
                         g = m.transform(Z)
